@@ -602,7 +602,7 @@ func main() {
 			// a hang costs the watchdog's 10 s, a crash costs nothing: tolerate
 			// few of the former and many of the latter before giving up
 			slowRestarts, crashRestarts := 0, 0
-			for slowRestarts < 3 && crashRestarts < 60 {
+			for slowRestarts < 3 && crashRestarts < 15 {
 				cmd := exec.Command(self, "-dir", e.Dir, "-worker", strconv.Itoa(k), strconv.Itoa(nw), strconv.Itoa(from), outPath)
 				// a fatal trace is long; the confirmation run captures it again
 				err := cmd.Run()
